@@ -17,6 +17,7 @@ Record bfacts := mkBFacts {
   b_list_len : guard;                                  (* parse_slash_list *)
   b_word_mask : Z;
   b_empty_panics : bool;                               (* ConnBuffer::read on input without a header line: todo!() *)
+  b_empty_trie_err : bool;                             (* build_trie returns an error when no entry is indexed (else yada asserts) *)
   b_hdr_left_g : list guard; b_hdr_right_g : list guard;
   b_hdr_fields : nat; b_line_fields : nat;
   b_elem_left_g : list guard; b_elem_right_g : list guard;   (* write_elem *)
@@ -203,7 +204,10 @@ Definition build_with (inp : input) : res dict :=
           let n := Z.of_nat (List.length es) in
           let max0 := if user then nsys else n in
           let max1 := if user then n else 0 in
-          if forallb (entry_ok nl nr max0 max1) es then Ok (mkDict nl nr st user nsys es) else Err
+          if forallb (entry_ok nl nr max0 max1) es then
+            if existsb indexed es then Ok (mkDict nl nr st user nsys es)
+            else if b_empty_trie_err F then Err else Panic
+          else Err
       | None => Err
       end
   | Err => Err
@@ -247,6 +251,15 @@ Definition stores_in_range (d : dict) : bool := forallb (fun s => (0 <=? fst s) 
 (* the full validity the property asks for includes what analysis relies on: split units spell the headword *)
 Definition dict_valid_full (d : dict) : bool := dict_valid d && forallb e_splits_concat (d_entries d).
 
+(* what is offered must be a possible system dictionary: dimensions of a loaded grammar are non-negative i16 values *)
+Definition input_wf (inp : input) : Prop :=
+  match i_base inp with
+  | SystemDic _ => True
+  | UserDic a b n => 0 <= a <= 32767 /\ 0 <= b <= 32767 /\ 0 <= n
+  end.
+
+Definition entry_id (k : idkind) (e : entry) : Z := match k with KLeftId => e_left e | KRightId => e_right e end.
+
 Definition bfacts_ok (F : bfacts) : bool :=
   (* left_id of every entry that passes is < num_right; right_id of every indexed entry is within 0..num_left *)
   existsb (fun g => rejects_all_ge g NumRight && plain_rhs g) (b_left_g F ++ b_left_gi F)
@@ -254,7 +267,7 @@ Definition bfacts_ok (F : bfacts) : bool :=
   && (match b_indexed F with mkG CastNone CGe (OConst 0) => true | _ => false end)
   && (match b_wid_cmp F with CGe => true | _ => false end)
   && (match b_list_len F with mkG CastNone CGt (OConst c) => c <=? 127 | mkG CastNone CGe (OConst c) => c <=? 128 | _ => false end)
-  && negb (b_empty_panics F)
+  && negb (b_empty_panics F) && b_empty_trie_err F
   && existsb (fun g => rejects_all_neg g NumLeft) (b_hdr_left_g F) && existsb (fun g => rejects_all_neg g NumRight) (b_hdr_right_g F)
   && covers_strict (b_elem_left_g F) NumLeft && covers_strict (b_elem_right_g F) NumRight
   && index_shape_ok (b_elem_index F) && index_shape_ok (b_matrix_index F)
@@ -266,7 +279,7 @@ Definition gen_bfacts : bfacts :=
   mkBFacts BuildGuards.validate_left_id_guards BuildGuards.validate_left_id_guards_indexed
            BuildGuards.validate_right_id_guards BuildGuards.validate_right_id_guards_indexed
            BuildGuards.should_index_guard BuildGuards.validate_wid_cmp BuildGuards.slash_list_len_guard BuildGuards.WORD_MASK
-           BuildGuards.conn_empty_input_panics BuildGuards.conn_header_left_guards BuildGuards.conn_header_right_guards
+           BuildGuards.conn_empty_input_panics BuildGuards.empty_trie_is_error BuildGuards.conn_header_left_guards BuildGuards.conn_header_right_guards
            BuildGuards.conn_header_fields BuildGuards.conn_line_fields
            BuildGuards.write_elem_left_guards BuildGuards.write_elem_right_guards ConnIndex.write_elem_index
            ConnIndex.matrix_index ConnIndex.cost_arg_left ConnIndex.cost_arg_right.
@@ -332,3 +345,6 @@ Definition check_sink (inp : input) (total k : Z) (impl_status : status) : bool 
   | Err => status_eqb impl_status SErr
   | Panic => false
   end.
+
+Definition check_sink_all (inp : input) (total : Z) (results : list (Z * status)) : bool :=
+  forallb (fun ks => check_sink inp total (fst ks) (snd ks)) results.
